@@ -27,7 +27,7 @@ var primitives = []string{
 	"xr-status",
 	"req-name", "req-name-absent",
 	"req-labels0", "req-labels1", "req-labels2",
-	"req-then", "req-chain", "req-flip",
+	"req-then", "req-drop", "req-chain", "req-flip",
 	"input",
 	"cred", "cred-absent",
 }
@@ -210,6 +210,14 @@ func behave(fname string, in *fnv1.RunFunctionRequest, maxIter int) *fnv1.RunFun
 			rsp.Requirements = reqs("x", byName("cm-present"))
 		}
 		ctx().Fields["n-"+fname] = structpb.NewNumberValue(float64(ctxNumber(req.GetContext(), "n-"+fname) + 1))
+	case "req-drop":
+		// Require x in the first call only; afterwards require nothing.
+		c := ctxNumber(req.GetContext(), "n-"+fname)
+		if c == 0 {
+			rsp.Requirements = reqs("x", byName("cm-present"))
+		}
+		ctx().Fields["n-"+fname] = structpb.NewNumberValue(float64(c + 1))
+		ctx().Fields["seen-"+fname] = structpb.NewNumberValue(float64(items(req, "x")))
 	case "req-chain":
 		// Requirements change on every call until the last permitted one.
 		c := ctxNumber(req.GetContext(), "n-"+fname)
